@@ -285,7 +285,9 @@ func (iter *DBIterator) materialize(src *kv.Entry) bool {
 			return false
 		}
 		iter.entry.Value = src.Value
-		iter.item.valueBuf = iter.entry.Value
+		// src.Value aliases memtable/block memory: it must not become the item's
+		// scratch buffer, ValueCopy appends fetched value-log bytes into that buffer.
+		iter.item.valueBuf = nil
 	}
 	iter.item.e = &iter.entry
 	return true
